@@ -1,7 +1,7 @@
 (* Properties/C03.v — Transaction id commits to exactly the non-malleable content.
    Only statements, each closed by `exact` of a lemma proved in TxId/IdProofs.v, and its assumptions. *)
 From FV Require Import Base.Bytes Base.U64 Codec.CodecModel Codec.CodecInstances Gen.Schemas Gen.PrepareSign
-     TxId.IdSyntax TxId.IdSpec TxId.IdModel TxId.IdProofs.
+     TxId.IdSyntax TxId.IdSpec TxId.IdModel TxId.IdProofs TxId.IdPreserve.
 Open Scope N_scope.
 
 (* obligations on the translator output (Gen/PrepareSign.v): every callee resolves, the variant
@@ -102,8 +102,20 @@ Theorem C03_nonvacuous :
 Proof. exact (conj ex_wf (conj ex_content_differs (conj ex_malleable_change ex_collision_free))). Qed.
 Print Assumptions C03_nonvacuous.
 
-(* OPEN (not proved): the binding theorem with the well-formedness premise on the transactions
-   themselves instead of on their stripped forms, i.e. "strip preserves typed and wf".  It is
-   executed on every correspondence case (Run/TxId.v) but not proved. *)
-Definition C03_binding_full_statement : Prop :=
+(* strip keeps a transaction typed and well-formed (generic over the schema universe: the
+   malleable paths only hit flat fields, the removed ones vectors, none reaches the predicate /
+   data fields the Input well-formedness condition inspects) *)
+Theorem C03_strip_preserves_wf :
   forall (k : kind) (v : val), wfv k v = true -> wfv k (strip k v) = true.
+Proof. exact strip_preserves_wfv. Qed.
+Print Assumptions C03_strip_preserves_wf.
+
+(* ... so the binding theorem holds with the well-formedness premise on the transactions themselves *)
+Theorem C03_binding_full :
+  forall (D : Type) (h : bytes -> D) (c c' : N) (k : kind) (v v' : val),
+    c < U64 -> c' < U64 -> wfv k v = true -> wfv k v' = true ->
+    c <> c' \/ content k v <> content k v' ->
+    (h (id_preimage c k v) = h (id_preimage c' k v') -> id_preimage c k v = id_preimage c' k v') ->
+    id_spec h c k v <> id_spec h c' k v'.
+Proof. exact @id_binding_full. Qed.
+Print Assumptions C03_binding_full.
